@@ -473,7 +473,7 @@ pub fn c16(ctx: &Ctx) -> Report {
 
 // ------------------------------------------------------------------------------------------- C20
 pub fn c20(ctx: &Ctx) -> Report {
-    let mut rep = Report::new("C20", "all 12 StatusCode variants x messages {empty, ASCII, non-ASCII, 4 KiB, NUL / control characters, a code name inside the message, lossy-UTF-8 replacement characters, 256 bytes, 70000 bytes} formatted through Display / to_string / dyn Error in a child process with a 256 KiB main-thread stack (so unbounded recursion aborts instead of eating memory), compared with the model's Status.new/display; all io::ErrorKind values the conversion distinguishes plus 16 others mapped through From<io::Error>; From<snap::Error>, From<PoisonError>; judge: the text contains the code name and the message; non-trivial = every case; distinct by (code, message)");
+    let mut rep = Report::new("C20", "all 12 StatusCode variants x messages {empty, ASCII, non-ASCII, 4 KiB, NUL / control characters, a code name inside the message, lossy-UTF-8 replacement characters, 256 bytes, 70000 bytes} formatted through Display / to_string / dyn Error (and with every precision 0..len+1, widths and alignments: must not panic) in a child process with a 256 KiB main-thread stack (so unbounded recursion aborts instead of eating memory), compared with the model's Status.new/display; all io::ErrorKind values the conversion distinguishes plus 16 others mapped through From<io::Error>; From<snap::Error>, From<PoisonError>; judge: the text contains the code name and the message; non-trivial = every case; distinct by (code, message)");
     let mut d = ctx.new_driver();
     // the child prints hex(display) per case
     let exe = std::env::current_exe().unwrap();
@@ -526,6 +526,14 @@ pub fn c20(ctx: &Ctx) -> Report {
                     rep.judge_fail(J::obj(vec![("what", J::s("io::ErrorKind is not mapped to the documented status code")), ("kind", J::s(f[1])), ("code", J::s(f[2])), ("documented", J::s(want))]));
                 }
             }
+            "fmt" => {
+                // fmt <code> <hexmsg> ok | <formatting parameters under which Display panicked>
+                rep.case(line, true);
+                rep.count("formatting_parameter_cases");
+                if f[3] != "ok" {
+                    rep.judge_fail(J::obj(vec![("what", J::s("formatting the Status with caller-chosen formatting parameters panics: the value cannot be displayed")), ("code", J::s(f[1])), ("message_hex", J::s(f[2])), ("panics_with", J::s(f[3]))]));
+                }
+            }
             "conv" => {
                 // conv <name> <code> <hexdisplay>
                 rep.case(line, true);
@@ -570,6 +578,22 @@ pub fn c20_child() {
             let e: Box<dyn Error> = Box::new(s.clone());
             let d3 = format!("{}", e);
             println!("new {:?} {} {} {} {}", c, hex(m.as_bytes()), hex(d1.as_bytes()), hex(d2.as_bytes()), hex(d3.as_bytes()));
+            // formatting parameters chosen by the caller (width, precision, alignment) must not make the value
+            // undisplayable: every precision up to past the end, a width, both (the content is not judged here)
+            if m.len() <= 300 {
+                let mut bad: Vec<String> = vec![];
+                for n in 0..=(d1.len() + 1).min(120) {
+                    let s2 = s.clone();
+                    if std::panic::catch_unwind(move || format!("{:.*}", n, s2)).is_err() {
+                        bad.push(format!("precision={}", n));
+                    }
+                }
+                let s2 = s.clone();
+                if std::panic::catch_unwind(move || format!("{:>40}|{:<3}|{:^9.4}", s2, s2, s2)).is_err() {
+                    bad.push("width/alignment".into());
+                }
+                println!("fmt {:?} {} {}", c, hex(m.as_bytes()), if bad.is_empty() { "ok".to_string() } else { bad.join(",") });
+            }
         }
     }
     for (name, kind) in io_kinds() {
